@@ -478,7 +478,8 @@ static void tr_der_go(tr_der_ctx* x, const octet* der, size_t c, size_t seed)
 	if (!x->val) x->val = (const octet*)tr_m(0), x->vlen = 0;
 	x->out = (octet*)tr_m(5 * c + 64);
 	memset(sw, 0, sizeof(sw));
-	sw->f = tr_der_f, sw->ctx = x, sw->pbudget = 600, sw->mbudget = c <= 330 ? 330 : 96, sw->phase = seed;
+	sw->f = tr_der_f, sw->ctx = x, sw->phase = seed;
+	sw->pbudget = c <= 4096 ? 600 : 96, sw->mbudget = c <= 330 ? 330 : c <= 4096 ? 96 : 40;
 	TR_S(derIsValid(der, c), "derIsValid");
 	tr_sweep(sw, der, c);
 }
@@ -883,7 +884,7 @@ typedef struct {
 	const octet* certa; size_t certa_len;
 	const octet* cert2; size_t cert2_len;	/* a certificate issued by certa */
 	const octet* d; size_t d_len;
-	size_t heavy;			/* counter: signature-level functions on every 8th accepted code */
+	size_t heavy;			/* counter: signature-level functions on every 16th accepted code */
 	int which;				/* 0: codes derived from certa, 1: from cert2 */
 } tr_cvc_ctx;
 
@@ -899,7 +900,7 @@ static void tr_cvc_f(const octet* b, size_t c, void* vctx)
 		return;
 	TR_T(r == c, "btokCVCUnwrap-len");
 	TR_T(btokCVCCheck(x->cvc) == ERR_OK, "btokCVCUnwrap-check");
-	if (x->heavy++ % 8)
+	if (x->heavy++ % 16)
 		return;
 	/* well-formed code: signature-level functions */
 	(void)btokCVCUnwrap(x->cvc, b, c, x->cvc->pubkey, 0);
@@ -972,7 +973,9 @@ static void tr_btok_cvc(const size_t* p)
 	x->cvc = (btok_cvc_t*)tr_m(sizeof(btok_cvc_t));
 	x->cvca = cvc, x->certa = cert, x->certa_len = k, x->cert2 = cert2, x->cert2_len = k2;
 	memset(sw, 0, sizeof(sw));
-	sw->f = tr_cvc_f, sw->ctx = x, sw->pbudget = 600, sw->mbudget = 120, sw->phase = p[0];
+	/* every well-formed code costs a public key validation: fewer positions on the larger curves */
+	sw->f = tr_cvc_f, sw->ctx = x, sw->pbudget = 600, sw->mbudget = pk == 64 ? 64 : pk == 96 ? 32 : 20;
+	sw->phase = p[0];
 	/* codes derived from the root (private key d), then from the issued certificate (d2) */
 	x->which = 0, x->d = d, x->d_len = pk / 2;
 	tr_sweep(sw, cert, k);
@@ -1067,7 +1070,8 @@ static void tr_btok_sm(const size_t* p)
 		TR_E(btokSMRespUnwrap((apdu_resp_t*)x->out, 0, apdu, count, prot ? st_t : 0), "btokSMRespUnwrap");
 	}
 	memset(sw, 0, sizeof(sw));
-	sw->f = tr_sm_f, sw->ctx = x, sw->pbudget = 400, sw->mbudget = count > 4096 ? 48 : 330, sw->phase = p[0];
+	sw->f = tr_sm_f, sw->ctx = x, sw->phase = p[0];
+	sw->pbudget = count > 4096 ? 48 : 400, sw->mbudget = count > 4096 ? 12 : 330;
 	tr_sweep(sw, apdu, count);
 }
 
